@@ -275,6 +275,22 @@ def scenario_actor(sim: Sim) -> None:
                               f"{got} W; system bounds {sb}; higher-priority live {[pm.pstr(q) for q in live.values()]}")
             if len(live) >= 1:
                 sim.nontrivial = True
+            if ch.chance("probe_withdraws", 0.4):
+                # the probe actor withdraws (neither power nor bounds): equivalent to it having no proposal at all
+                nreq = len(h.requests)
+                h.propose(0, {"actor": probe["name"], "prio": probe["prio"], "op": False, "pref": None, "lower": None,
+                              "upper": None, "t": sim.loop.time()})
+                await asyncio.sleep(0.01)
+                sim.probe("null_proposal_at_actor_level")
+                if len(h.requests) > nreq:
+                    got0 = h.requests[-1]["power"]
+                    ref0 = pm.reference(list(live.values()), sb)
+                    if ref0["conflict_free"] and got0 not in ref0["accept"]:
+                        sim.violation("null_proposal", {"what": "target after a withdrawal differs from the target without that actor",
+                                                        "level": "actor"},
+                                      f"{probe['name']} (prio {probe['prio']}) withdrew its proposal; request {got0} W, without "
+                                      f"that actor the reference accepts {sorted(ref0['accept'])}; system bounds {sb}; "
+                                      f"others {[pm.pstr(q) for q in live.values()]}")
         await h.stop()
 
     sim.run(main())
